@@ -679,6 +679,35 @@ func runC19(c *fw.Ctx) {
 		ostep("Clear.Set", func() at.Object { return o.Clear().Set("k", 2) })
 		ostep("Clear.ForEach", func() at.Object { return o.Clear().ForEach(func(string, any) {}) })
 		ostep("ForEachAsync(empty)", func() at.Object { return o.ForEachAsync(func(string, any) {}) })
+		// callbacks that change the fields of the traversed object: new keys, removed keys, everything removed
+		grow := func(prefix string) func() {
+			n := 0
+			return func() {
+				for j := 0; j < 8; j++ {
+					o.Set(fmt.Sprintf("%s%d", prefix, n), n)
+					n++
+				}
+			}
+		}
+		ostep("ForEach(callback sets new keys)", func() at.Object {
+			g := grow("fe")
+			return o.Set("a", 1, "b", "s", "c", 2.5).ForEach(func(string, any) { g() })
+		})
+		ostep("ForEachValue(callback sets new keys)", func() at.Object {
+			g := grow("fv")
+			return o.ForEachValue(func(any) { g() })
+		})
+		ostep("ForEachInt(callback sets new keys)", func() at.Object {
+			g := grow("fi")
+			return o.Set("i1", 1, "i2", 2).ForEachInt(func(int) { g() })
+		})
+		ostep("ForEachString(callback unsets keys)", func() at.Object {
+			return o.Set("s1", "x", "s2", "y").ForEachString(func(string) { o.Unset("s1", "s2", "a", "b") })
+		})
+		ostep("ForEach(callback clears)", func() at.Object { return o.Set("z", 1).ForEach(func(string, any) { o.Clear() }) })
+		ostep("ForEach(callback clears and refills)", func() at.Object {
+			return o.Set("z", 1, "y", 2).ForEach(func(string, any) { o.Clear().Set("again", 1, "more", 2) })
+		})
 	})
 	// (3) storage: a derived value stored in another container comes back as the identical outer value
 	c.Cases("storage", fixtureDepths*2*states, true, func(i int, r0 *rng.R) {
